@@ -1,5 +1,6 @@
 import RsslVerif.Model.Names
 import RsslVerif.Model.NamesEmit
+import RsslVerif.Lemmas.NamesEmitWitness
 import RsslVerif.Gen.Reserved
 import RsslVerif.Driver.Util
 /-!
@@ -314,6 +315,23 @@ def answer (t : Target) (p : Program) : String :=
       (reflection t names p).map (fun r => toString r.1 ++ ":" ++ r.2) ++
       ["|entry"] ++ entryNames t names p ++ ["|out", " ".intercalate ((emit t names p).map render)])
 
+/-- the programs of `Lemmas/NamesEmitWitness.lean` by name (the check compares their answer with the answer for the
+corpus request that is the same program written as a descriptor) -/
+def witness? : String → Option Program
+  | "pMember" => some RsslVerif.Lemmas.NamesEmitWitness.pMember
+  | "pCbuffer" => some RsslVerif.Lemmas.NamesEmitWitness.pCbuffer
+  | "pCbufferNs" => some RsslVerif.Lemmas.NamesEmitWitness.pCbufferNs
+  | "pGenerated" => some RsslVerif.Lemmas.NamesEmitWitness.pGenerated
+  | "pLocalType" => some RsslVerif.Lemmas.NamesEmitWitness.pLocalType
+  | "pWrapper" => some RsslVerif.Lemmas.NamesEmitWitness.pWrapper
+  | "pThreaded" => some RsslVerif.Lemmas.NamesEmitWitness.pThreaded
+  | "pInline" => some RsslVerif.Lemmas.NamesEmitWitness.pInline
+  | "pRelative" => some RsslVerif.Lemmas.NamesEmitWitness.pRelative
+  | "pMethods" => some RsslVerif.Lemmas.NamesEmitWitness.pMethods
+  | "pMemberMethod" => some RsslVerif.Lemmas.NamesEmitWitness.pMemberMethod
+  | "pGood" => some RsslVerif.Lemmas.NamesEmitWitness.pGood
+  | _ => none
+
 end Res
 
 def handle (op : String) (args : List String) : String :=
@@ -329,6 +347,11 @@ def handle (op : String) (args : List String) : String :=
     match Res.target? t, Res.parseProgram prog with
     | some tg, some p => Res.answer tg p
     | _, _ => "bad-request"
+  | "C15.witness", [name, t, prog] =>
+    -- is the named Lean term the program this descriptor denotes?
+    match Res.witness? name, Res.target? t, Res.parseProgram prog with
+    | some w, some tg, some p => if w == p then Res.answer tg w else "witness-differs-from-descriptor " ++ Res.answer tg w
+    | _, _, _ => "bad-request"
   | _, _ => "unsupported-op"
 
 end RsslVerif.Driver.C15
